@@ -20,7 +20,7 @@ theorem trans_isPrint (E : Env) (s : Bytes) : go_isPrint E s = some (isPrintStr 
     rw [h2]
     cases isPrintStr E s <;> rfl
   · intro i x st
-    cases h : isPrintRune E x.2 <;> simp [h]
+    cases h : isPrintRune E x.2 <;> simp [go_isPrint_loop1, h]
 
 theorem trans_quoteIfNeeded (E : Env) (s : Bytes) : go_quoteIfNeeded E s = some (quoteIfNeeded E s) := by
   unfold go_quoteIfNeeded quoteIfNeeded
@@ -57,6 +57,7 @@ theorem trans_quoteV (E : Env) (s : List Bytes) : go_quoteV E s = some (s.map (q
   simp only [h0, if_true, bind, Option.bind, pure]
   rw [Go.forRange_fill (quote E)]
   intro i x st
+  unfold go_quoteV_loop1
   cases Go.setIdx st i (quote E x) <;> rfl
 
 theorem trans_quoteIfNeededV (E : Env) (s : List Bytes) :
@@ -66,6 +67,7 @@ theorem trans_quoteIfNeededV (E : Env) (s : List Bytes) :
   simp only [h0, if_true, bind, Option.bind, pure]
   rw [Go.forRange_fill (quoteIfNeeded E)]
   intro i x st
+  unfold go_quoteIfNeededV_loop1
   rw [trans_quoteIfNeeded]
   cases h : Go.setIdx st i (quoteIfNeeded E x) <;> simp [h]
 
